@@ -370,3 +370,41 @@ func init() {
 		}})
 	_ = fmt.Sprint
 }
+
+// C17.overflow: fixed-point powers in the end blocker cannot overflow for accepted parameters.
+// LegacyDec panics with "Int overflow" above ~2^256/10^18.  base.Power(n) with n = elapsed intervals is safe only if the
+// base cannot exceed one (or n is bounded); the accepted ranges are the ones enforced by the handlers (C16.validate).
+func init() {
+	register(&Rule{ID: "C17.overflow", Props: []string{"C17", "C14"}, Floor: 2,
+		Doc: "Power() in the end blocker has a base that cannot exceed one for accepted parameters",
+		Run: func(e *Engine, r *RuleRun) {
+			entry := r.Need("alliance.EndBlocker")
+			if entry == nil {
+				return
+			}
+			n := 0
+			for _, fn := range e.Reach(entry) {
+				if !smPkgs[fn.Pkg.Pkg.Path()] {
+					continue
+				}
+				fa := e.FA(fn)
+				for _, c := range CallsTo(fn, "math.LegacyDec.Power") {
+					n++
+					fk := FuncKey(fn)
+					base := recvT(fa, c)
+					bs := stripOrd(base.String())
+					switch {
+					case base.IsCall("math.LegacyDec.Sub") && base.Args[0].IsCall("math.LegacyOneDec") && strings.HasSuffix(base.Args[1].String(), ".TakeRate"):
+						r.OK(fk, "power:(1 - takeRate)^n", "base in (0,1]: every writer of TakeRate enforces 0 <= takeRate < 1 (C16.validate)", r.P(c))
+					case strings.HasSuffix(bs, ".RewardChangeRate"):
+						// needs a dominating bound rate <= 1, or a bounded exponent
+						ok := fa.HasFact(c, bs, "<=", "1") || fa.HasFact(c, bs, "<", "1")
+						r.Check(ok, fk, "power:rewardChangeRate^n", "dominated by rate <= 1", "rewardChangeRate.Power(n) with n = whole intervals since the decay clock: the handlers accept any rate > 0 and any interval >= 0, so rate 2 with a 1 s interval overflows LegacyDec (`Int overflow` panic) after a 5 minute gap between blocks, rate 1.01 with a 1 ns interval in the first block after the start time, and shortening the interval of an old schedule does the same; the clamp to the weight range comes after the power, the clock does not advance, every later block panics again", r.P(c))
+					default:
+						r.Undecided(fk, "power:"+bs, "Power() with a base that is not one of the reviewed shapes")
+					}
+				}
+			}
+			r.Check(n >= 2, "-", "powers in the end blocker", fmt.Sprintf("%d Power() calls in the end blocker's call tree", n), fmt.Sprintf("only %d Power() calls found", n))
+		}})
+}
